@@ -586,3 +586,31 @@ pub fn run(tier: &str, seed: u64) -> i32 {
         !matches!(&f, Ok(v) if v["format"].as_array().is_some_and(|a| a.iter().all(|x| x["ok"] == json!(true))))
     })
 }
+
+/// `./check replay <file>` for C05: re-run the single recorded case (in this process; an abort kills it visibly).
+pub fn replay(v: &Value, path: &str) -> i32 {
+    if let (Some(l), Some(d)) = (v["extra"]["ladder"].as_u64(), v["extra"]["depth"].as_u64()) {
+        println!("replay C05 ladder {} depth {d}", LADDERS[l as usize].0);
+        let code = ladder_worker(&[l.to_string(), d.to_string(), "format".into()]);
+        if code != 0 {
+            println!("VIOLATION property=C05 replay={path}");
+            return 1;
+        }
+        return 0;
+    }
+    let input = v["input"].as_str().unwrap_or("");
+    let mut fails = vec![];
+    let mut calls = 0;
+    check_case(&Real, input, &mut fails, &mut calls);
+    println!("replay C05: input={}", esc(input));
+    if fails.is_empty() {
+        println!("PASS: totality holds for this input under {calls} calls");
+        0
+    } else {
+        for (c, d, cfg) in &fails {
+            println!("FAIL clause={c} cfg={} :: {d}", cfg.show());
+        }
+        println!("VIOLATION property=C05 replay={path}");
+        1
+    }
+}
